@@ -350,6 +350,8 @@ def explore(kind, env, tier, max_depth):
         if hist == ():
             check((), acc)
         for op in alpha:
+            if op[0] == "edit" and op in hist:
+                continue          # each in-place circuit edit at most once per history: keeps the space finite
             h = hist + (op,)
             obj, _ = build_h(h, env)
             acc.tick("transitions")
